@@ -80,13 +80,16 @@ func ihEdge(st int, op *ihOp) (next int, ok bool, lenient bool) {
 	return st, false, false
 }
 
-func c04InterHubProperty(t *rapid.T) {
+func c04InterHubProperty(t *rapid.T) { interHubProperty(t, "C04") }
+func c02InterHubProperty(t *rapid.T) { interHubProperty(t, "C02") }
+
+func interHubProperty(t *rapid.T, prop string) {
 	audit := rapid.Bool().Draw(t, "audit")
 	tpl := sim.ProofWorld(audit)
 	w := tpl.InstantiateWith("c04ih", tpl.Opts)
 	defer w.N.Destroy()
 	var ops []string
-	f := &failer{t: t, prop: "C04", ops: &ops}
+	f := &failer{t: t, prop: prop, ops: &ops}
 	ops = append(ops, fmt.Sprintf("world proof audit=%v", audit))
 	bxh := w.BxhID
 	local := sim.FullID(bxh, "chainH", "s1")
@@ -224,6 +227,40 @@ func c04InterHubProperty(t *rapid.T) {
 		}
 		h := w.N.Height() + 1
 		rs := w.Block(list...)
+		// delivery: an accepted request is listed once in this block's delivery set for its destination - the union
+		// pier for the remote hub, the appchain for a local service -, a rejected IBTP nowhere; the router hands the
+		// piers what the metadata lists
+		meta, err := w.N.Ledger.GetInterchainMeta(h)
+		if err != nil {
+			f.fail("no interchain meta for block %d: %v", h, err)
+		}
+		checkRouterDelivery(w.N, h, meta, f.fail)
+		for i, op := range cur {
+			listed := map[string]int{}
+			for chain, vs := range meta.Counter {
+				for _, vi := range vs.Slice {
+					if int(vi.Index) == i {
+						listed[chain]++
+					}
+				}
+			}
+			if !rs[i].IsSuccess() {
+				if len(listed) > 0 {
+					f.fail("block %d: the rejected %s is listed in the delivery sets %v", h, op.desc, listed)
+				}
+				continue
+			}
+			if op.kind == "req" {
+				dest := "default_union_pier_id"
+				if !op.out {
+					dest = "chainH"
+				}
+				if listed[dest] != 1 {
+					f.fail("block %d: the accepted %s is listed %d times in the delivery set of %s (all: %v)", h, op.desc, listed[dest], dest, listed)
+				}
+				classes["delivered-to/"+dest] = true
+			}
+		}
 		touched := map[string]*ihOp{}
 		for i, op := range cur {
 			from, to := pairOf(op.out)
@@ -347,7 +384,7 @@ func c04InterHubProperty(t *rapid.T) {
 	if len(cur) > 0 {
 		seal()
 	}
-	st := sim.StatsFor("C04")
+	st := sim.StatsFor(prop)
 	var ks []string
 	for k := range classes {
 		ks = append(ks, k)
@@ -364,3 +401,4 @@ func c04InterHubProperty(t *rapid.T) {
 }
 
 func TestC04InterHub(t *testing.T) { rapid.Check(t, c04InterHubProperty) }
+func TestC02InterHub(t *testing.T) { rapid.Check(t, c02InterHubProperty) }
